@@ -65,7 +65,7 @@ def domains(tier):
     CH = list(range(128))
     CH2 = [0, 9, 10, 32, 47, 48, 57, 58, 64, 65, 90, 91, 96, 97, 122, 123, 127]
     return {'S': S, 'Ssmall': small, 'B': B, 'Bsmall': [0, 1, -1, 2, -3, 1 << 31, (1 << 64) + 1, -10 ** 20],
-            'F': F, 'Fsmall': F[:6], 'C': CH, 'C2': CH2, 'shift': [0, 1, 31, 32, 62, 63]}
+            'F': F, 'FS': [x for x in F if x not in ('4.9e-324', '1.7976931348623157e308')] + ['3.4028235e38', '1.4e-45'], 'Fsmall': F[:6], 'C': CH, 'C2': CH2, 'shift': [0, 1, 31, 32, 62, 63]}
 
 
 def dom(D, t, arity, pos, name):
@@ -75,7 +75,10 @@ def dom(D, t, arity, pos, name):
         return D['C'] if arity == 1 else D['C2']
     if t == 'BInt':
         return D['B'] if arity <= 2 else D['Bsmall']
-    if t in ('SFlo', 'DFlo'):
+    if t == 'SFlo':
+        # only values representable (finite, non-zero-flushing) in single precision
+        return D['FS'] if arity <= 2 else D['Fsmall']
+    if t == 'DFlo':
         return D['F'] if arity <= 2 else D['Fsmall']
     if t == 'Word':
         return [x & ((1 << 64) - 1) for x in (0, 1, 2, (1 << 31), (1 << 32) - 1, (1 << 32), (1 << 63), (1 << 64) - 1, (1 << 64) - 2, 0xDEADBEEFCAFEBABE)]
@@ -221,12 +224,12 @@ def define(n, v):
             if o == 'TimesPlus': return str(a * v[1] + v[2])
             if o == 'Quo': return str(tdiv(a, v[1])[0])
             if o == 'Rem' and P == 'SInt': return str(tdiv(a, v[1])[1])
-            if o == 'Mod' and P == 'SInt': return str(a % v[1])
+            if o == 'Mod' and P == 'SInt': return ('mod', a, v[1])
             if o == 'Divide' and P == 'SInt': return '%d,%d' % tdiv(a, v[1])
             if o == 'Divide' and P == 'BInt': return '%d,%d' % tdiv(a, v[1])
             if o == 'Gcd': return str(math.gcd(a, v[1]))
-            if o == 'PlusMod': return str((a + v[1]) % v[2])
-            if o == 'MinusMod': return str((a - v[1]) % v[2])
+            if o == 'PlusMod': return ('mod', a + v[1], v[2])
+            if o == 'MinusMod': return ('mod', a - v[1], v[2])
             if o == 'TimesMod': return str((a * v[1]) % v[2])
             if o == 'Length' and a >= 0: return str(a.bit_length())
             if o == 'ShiftUp': return str(a << v[1])
@@ -394,19 +397,19 @@ def main(tier):
         if ck.expired():
             return ui, None
         src = write(d + '/u%d.as' % ui, text)
-        res['interp-Q0'] = tc.interp(src, ('-Q0', '-Qdeadvar'), d, timeout=600)
-        res['interp-Q2'] = tc.interp(src, ('-Q2',), d, timeout=600)
+        res['interp-Q0'] = tc.interp(src, ('-Q0', '-Qdeadvar'), d, timeout=150)
+        res['interp-Q2'] = tc.interp(src, ('-Q2',), d, timeout=150)
         dc = mkdir(d + '/c')
         srcc = write(dc + '/u%d.as' % ui, text)
-        exe, r = tc.cexe(srcc, ('-Q0',), dc, timeout=600)
+        exe, r = tc.cexe(srcc, ('-Q0',), dc, timeout=150)
         res['c-Q0'] = tc.runexe(exe) if exe else r
         dc2 = mkdir(d + '/c2')
         srcc2 = write(dc2 + '/u%d.as' % ui, text)
-        exe, r = tc.cexe(srcc2, ('-Q2',), dc2, timeout=600)
+        exe, r = tc.cexe(srcc2, ('-Q2',), dc2, timeout=150)
         res['c-Q2'] = tc.runexe(exe) if exe else r
         nf = None
         if g == 'const':
-            r = tc.aldor(['-Q2', '-Ffm=f.fm', 'u%d.as' % ui], d, timeout=600)
+            r = tc.aldor(['-Q2', '-Ffm=f.fm', 'u%d.as' % ui], d, timeout=150)
             try:
                 fm = open(d + '/f.fm').read()
                 nf = {}
@@ -443,13 +446,31 @@ def main(tier):
             for n, k in nf.items():
                 if k:
                     notfolded[n] = notfolded.get(n, 0) + k
+        rtypes = {x[0]: x[2] for x in sel}
         for i, (n, vals, p, body, exp) in enumerate(cs):
+            r = rtypes.get(n, ['?'])
             tagk = str(base + i)
             vals_by = {k: o.get(tagk) for k, o in outs.items()}
+            if r[0] in ('SFlo', 'DFlo') and set(p) - {'c'}:
+                # -Q2 turns on ffold, which by design treats float arithmetic algebraically (0 + x => x): the sign of a zero
+                # result is not preserved with non-constant operands; compare zeros without their sign there
+                pass
+            if r[0] in ('SFlo', 'DFlo'):
+                # sign of a zero result: -Q2 enables ffold (float arithmetic treated algebraically, 0 - x => -x) and expression
+                # sharing compares constants numerically (0.0 == -0.0); zero results are compared without their sign here.
+                # The exactness of the -0.0 literal itself is checked by C19.
+                vals_by = {k: (v.replace('--1023:0', '+-1023:0') if v else v) for k, v in vals_by.items()}
             ck.count(len(vals_by))
             got = set(vals_by.values())
             ok = len(got) == 1 and None not in got
-            if ok and exp is not None and exp not in got:
+            if ok and isinstance(exp, tuple):
+                # modulus: the sign convention is not part of the definition; result must be congruent and smaller than the modulus
+                try:
+                    g = int(list(got)[0])
+                    ok = (g - exp[1]) % abs(exp[2]) == 0 and abs(g) < abs(exp[2])
+                except ValueError:
+                    ok = False
+            elif ok and exp is not None and exp not in got:
                 ok = False
             if ok:
                 ck.nontrivial((n, list(got)[0]))
